@@ -16,8 +16,14 @@ class T:
 def main_table(fb):
     main = fb.find("main", crate="bin")
     rows = []
-    for scenario in ("ok", "error-with-location", "error-without-location"):
+    for scenario in ("ok", "ok-with-value", "error-with-location", "error-without-location"):
         E = T("error-message")
+        vi_ = dict((n, i) for i, n in fb.variants("values::Value"))
+        ni_ = dict((n, i) for i, n in fb.variants("values::Number"))
+        num_ = Enum(ni_["Integer"], [40])
+        num_.name, num_.adt = "Integer", "values::Number"
+        lastv = Enum(vi_["Number"], [num_])
+        lastv.name, lastv.adt = "Number", "values::Value"
         errv = Enum(0, [E, some([12, 34]) if scenario == "error-with-location" else none()])
         errv.name, errv.adt = "Located", "error::Located"
         sinks = {}
@@ -34,7 +40,8 @@ def main_table(fb):
                 return T("interpreter")
             if c.endswith("Interpreter::eval_file"):
                 ev.append(("eval_file", a[1] if len(a) > 1 else None))
-                return ok(none()) if scenario == "ok" else err(errv)
+                # (ok-with-value: the program's last form is an expression with a value, which eval_file hands back)
+                return ok(none()) if scenario == "ok" else (ok(some(lastv)) if scenario == "ok-with-value" else err(errv))
             if c.endswith("repl::run") or c.endswith("repl::run_with_interpreter"):
                 ev.append(("repl",))
                 return []
@@ -104,7 +111,7 @@ def rule_main(ctx, rule_exit, rule_stderr):
         ctx.inst(rule_exit, key, {"exit_calls": exits, "stderr": err_txt, "stdout": out_txt})
         if files != ["prog.scm"]:
             ctx.report(rule_exit, key + "/file", "`ruschm prog.scm` evaluates %s, expected the file named on the command line once" % files, where_of(main))
-        if scenario == "ok":
+        if scenario in ("ok", "ok-with-value"):
             good = not exits and not err_txt and not out_txt and getattr(d["result"], "name", None) in ("Ok", None)
             ctx.oblige(good)
             if exits:
@@ -159,7 +166,8 @@ def eval_flow_table(fb):
 
         class _P(Enum):
             pass
-        ptok = _P(0, [])
+        pfields = [x["name"] for x in fb.adt("parser::parser::Parser")["variants"][0]["fields"]]
+        ptok = _P(0, [T("fresh-syntax-env-of-the-parser") if n_ == "syntax_env" else (none() if n_ in ("current", "location") else UNKNOWN) for n_ in pfields])
         ptok.adt, ptok.name = "parser::parser::Parser", "Parser"
         ltok = _P(0, [])
         ltok.adt, ltok.name = "parser::lexer::Lexer", "Lexer"
@@ -208,13 +216,21 @@ def eval_flow_table(fb):
                 return a[0]
             return NOT
         selfv = [UNKNOWN for _ in fields]
+        SENV, ENV = T("syntax-environment-of-the-interpreter"), T("environment-of-the-interpreter")
+        if "syntax_env" in fields:
+            selfv[fields.index("syntax_env")] = SENV
+        if "env" in fields:
+            selfv[fields.index("env")] = ENV
         mc = Machine(fb, intercept=icpt, max_visits=8, budget=600)
         try:
             res = mc.run(f, [selfv, T("char-stream")])
         except (absint.Stuck, absint.Loop) as e:
             rows.append((name, {"stuck": str(e), "events": list(ev)}))
             continue
-        rows.append((name, {"result": res, "events": ev, "V1": V1, "V2": V2, "RE": RE, "EE": EE, "LE": LE}))
+        after = {n_: absint.deref(selfv[fields.index(n_)]) for n_ in ("syntax_env", "env") if n_ in fields}
+        kept = {n_: (True if v_ is w_ else (None if v_ is UNKNOWN else False)) for n_, v_, w_ in
+                ((n_, after.get(n_), SENV if n_ == "syntax_env" else ENV) for n_ in after)}
+        rows.append((name, {"result": res, "events": ev, "V1": V1, "V2": V2, "RE": RE, "EE": EE, "LE": LE, "state_kept": kept}))
     return f, rows
 
 
@@ -279,14 +295,22 @@ def rule_eval_flow(ctx, rules):
                            "after a failing form eval yields %r with the events %s, expected the error and no later form evaluated" % (res, evs)))
         else:
             checks.append(("last-value", okres and bool(machine_none_in(res)), "an empty submission yields %r, expected no value" % (res,)))
+        # whatever the submission does, the interpreter keeps its environment and its syntax environment (the macros defined so far)
+        for fld, kept in sorted((d.get("state_kept") or {}).items()):
+            if kept is None:
+                continue
+            checks.append(("state-kept", kept, "after a submission (%s) that %s the interpreter's `%s` is no longer the one it had: %s made "
+                           "before are lost for the rest of the session" % (name, "fails" if errres else "succeeds", fld,
+                                                                            "the macro definitions" if fld == "syntax_env" else "the definitions")))
         for aspect, good, msg in checks:
             r = rules.get(aspect)
             if not r:
                 continue
-            ctx.inst(r, key, {"ok": bool(good)})
+            k2 = key if aspect != "state-kept" else key + "/state"
+            ctx.inst(r, k2, {"ok": bool(good)})
             ctx.oblige(bool(good))
             if not good:
-                ctx.report(r, key, msg, where_of(f))
+                ctx.report(r, k2, msg, where_of(f))
     return decided
 
 
